@@ -47,6 +47,9 @@ pub enum ByteOp {
     Torn { cut: usize, other_slot: usize },
     /// The read returns the bytes of another slot.
     Misdirect { other_slot: usize },
+    /// The reader presents a variant of the authentication data: 0 = absent <-> empty (same
+    /// content, must still open), otherwise different content (must be refused).
+    AadVariant { mode: u8 },
 }
 
 /// Structure-aware corruption of an encapsulation (component level).
